@@ -150,20 +150,15 @@ func c03(r *core.Run) {
 	}
 	r.Floor("C03/R1", nLoops, 1, "loops over a file's prover list on the reward path")
 
-	// ---- R2 per-proof routine: the function with a size-tracker MapUpdate
-	var routine *ssa.Function
-	var credit *ssa.MapUpdate
-	for _, fn := range funcs {
-		allInstrs(fn, func(in ssa.Instruction) {
-			if mu, ok := in.(*ssa.MapUpdate); ok && mu.Value.Type().String() == "int64" {
-				routine, credit = fn, mu
-			}
-		})
-	}
-	if routine == nil {
+	// ---- R2 per-proof unit: the code deciding one (file, prover) pair, its executions enumerated abstractly
+	unit := perProofUnit(p, funcs)
+	routine, credit := unit.Routine, unit.Credit
+	if unit.CreditFn == nil {
+		routine = nil
 		r.Violation("C03/R2", "rewards:per-proof-routine", p.Pos(entry.Pos()), "no crediting of provers on the reward path")
 	} else {
 		r.Analysed(core.FnName(routine))
+		r.Analysed(core.FnName(unit.CreditFn))
 		class := func(in ssa.Instruction) string {
 			if in == ssa.Instruction(credit) {
 				return "credit"
@@ -193,37 +188,19 @@ func c03(r *core.Run) {
 			}
 			return ""
 		}
-		cyclic := false
-		for _, b := range routine.Blocks {
-			if core.InCycle(b) {
-				cyclic = true
-			}
-		}
-		if cyclic {
-			r.Undecided("C03/R2", "rewards:path-classes", p.Pos(routine.Pos()), "the per-proof routine contains a loop; paths cannot be enumerated")
+		if !unit.Complete {
+			r.Undecided("C03/R2", "rewards:path-classes", p.Pos(routine.Pos()), unit.Why)
 		} else {
-			type pathRes struct{ classes string }
 			seen := map[string]int{}
 			nPaths := 0
-			var dfs func(b *ssa.BasicBlock, acc []string)
-			dfs = func(b *ssa.BasicBlock, acc []string) {
-				for _, in := range b.Instrs {
-					if c := class(in); c != "" {
-						acc = append(acc, c)
-					}
+			for i := range unit.Execs {
+				e := &unit.Execs[i]
+				if e.Panic {
+					continue
 				}
-				if len(b.Succs) == 0 {
-					nPaths++
-					s := append([]string{}, acc...)
-					sort.Strings(s)
-					seen[strings.Join(s, ",")]++
-					return
-				}
-				for _, s := range b.Succs {
-					dfs(s, append([]string{}, acc...))
-				}
+				nPaths++
+				seen[unit.classesOf(e, class)]++
 			}
-			dfs(routine.Blocks[0], nil)
 			allowed := map[string]bool{"credit": true, "remove": true, "burn,remove": true}
 			var bad []string
 			for k := range seen {
@@ -232,7 +209,7 @@ func c03(r *core.Run) {
 				}
 			}
 			sort.Strings(bad)
-			r.Check(len(bad) == 0, "C03/R2", "rewards:path-classes", p.Pos(routine.Pos()), fmt.Sprintf("%d paths, classes %v", nPaths, sortedKeysOf(seen)), "a path of the per-proof routine performs "+strings.Join(bad, " / ")+" instead of exactly one of {credit} | {remove} | {remove, burn}")
+			r.Check(len(bad) == 0 && nPaths > 0, "C03/R2", "rewards:path-classes", p.Pos(routine.Pos()), fmt.Sprintf("%d executions, classes %v", nPaths, sortedKeysOf(seen)), "an execution of the per-proof routine performs "+strings.Join(bad, " / ")+" instead of exactly one of {credit} | {remove} | {remove, burn}")
 			r.Extra["per_proof_paths"] = nPaths
 		}
 		var provenCall, youngCall *ssa.Call
@@ -255,32 +232,36 @@ func c03(r *core.Run) {
 			}, want)
 		}
 		// `proven` is stored in a variable: the branch is on the call value itself (callbool) or its negation
-		credEff := &core.Effect{Instr: credit}
-		u := p.FindUnguarded(routine, []*core.Effect{credEff}, anyOf(isProven(true), isYoung(true)), true)
-		r.Check(len(u) == 0, "C03/R2", "rewards:credit-guard", p.InstrPos(credit), "credit only behind proven=true or young=true", "a prover that neither proved in the last window nor holds a young file is credited")
-		for _, b := range routine.Blocks {
-			for _, in := range b.Instrs {
-				c := class(in)
-				if c != "burn" && c != "remove+burn" {
-					continue
-				}
-				e := &core.Effect{Instr: in}
-				u1 := p.FindUnguarded(routine, []*core.Effect{e}, isProven(false), true)
-				u2 := p.FindUnguarded(routine, []*core.Effect{e}, isYoung(false), true)
-				r.Check(len(u1) == 0 && len(u2) == 0, "C03/R2", "rewards:burn-guard", p.InstrPos(in), "burn only behind proven=false and young=false", "a provider is burned although it proved in the last window or the file is still young")
+		unguarded := func(at ssa.Instruction, g core.GuardMatch) bool {
+			if at.Parent() == routine && len(p.FindUnguarded(routine, []*core.Effect{{Instr: at}}, g, true)) == 0 {
+				return false
 			}
+			return !(unit.Complete && unit.guarded(p, at, g))
+		}
+		r.Check(!unguarded(credit, anyOf(isProven(true), isYoung(true))), "C03/R2", "rewards:credit-guard", p.InstrPos(credit), "credit only behind proven=true or young=true", "a prover that neither proved in the last window nor holds a young file is credited")
+		nBurnSites := 0
+		for _, in := range unit.sites(class) {
+			c := class(in)
+			if c != "burn" && c != "remove+burn" {
+				continue
+			}
+			nBurnSites++
+			r.Check(!unguarded(in, isProven(false)) && !unguarded(in, isYoung(false)), "C03/R2", "rewards:burn-guard", p.InstrPos(in), "burn only behind proven=false and young=false", "a provider is burned although it proved in the last window or the file is still young")
+		}
+		if unit.Complete {
+			r.Floor("C03/R2", nBurnSites, 1, "burn sites of the per-proof routine")
 		}
 		if provenCall != nil {
 			a := dataArgs(provenCall)
-			hp := p.ProvAt(a[0], "", provenCall)
-			lp := p.ProvAt(a[1], "", provenCall).DataAtoms()
+			hp := p.ResolveToEntry(p.ProvAt(a[0], "", provenCall), routine)
+			lp := p.ResolveToEntry(p.ProvAt(a[1], "", provenCall), routine).DataAtoms()
 			okA := hp.HasCtx("BlockHeight") && len(hp.DataAtoms()) == 1 && len(lp) == 1 && lp[0].Kind == "store" && lp[0].Name == stProof && lp[0].Path == ".LastProven"
 			r.Check(okA, "C03/R2", "rewards:proven-arguments", p.InstrPos(provenCall), "proven(Ctx.BlockHeight, Store(FileProof).LastProven)", "the proven-in-window predicate is not fed the block height and the loaded proof's LastProven")
 		} else {
 			r.Violation("C03/R2", "rewards:proven-predicate", p.Pos(routine.Pos()), "the per-proof routine never tests whether the proof was renewed in the last window")
 		}
 		if youngCall != nil {
-			hp := p.ProvAt(dataArgs(youngCall)[0], "", youngCall)
+			hp := p.ResolveToEntry(p.ProvAt(dataArgs(youngCall)[0], "", youngCall), routine)
 			r.Check(hp.HasCtx("BlockHeight") && len(hp.DataAtoms()) == 1, "C03/R2", "rewards:young-arguments", p.InstrPos(youngCall), "young(Ctx.BlockHeight)", "the young-file predicate is not fed the block height")
 		}
 	}
@@ -401,15 +382,32 @@ func c03(r *core.Run) {
 		bo := pay[0].Op
 		// the unit: the function (bo.Fn or a caller of it) that receives the size tracker
 		unit := bo.Fn
-		hasTracker := func(fn *ssa.Function) bool {
-			for _, prm := range fn.Params {
-				t := prm.Type().String()
-				if t == "map[string]int64" || t == "*map[string]int64" {
-					return true
+		// the size tracker among the parameters: map[string]int64, a pointer to one, or a struct carrying one
+		// (index of the parameter, path of the map below it)
+		trackerOf := func(fn *ssa.Function) (int, string) {
+			for i, prm := range fn.Params {
+				t := prm.Type()
+				if pt, ok := t.Underlying().(*types.Pointer); ok {
+					t = pt.Elem()
+				}
+				if t.String() == "map[string]int64" {
+					return i, ""
+				}
+				if st, ok := t.Underlying().(*types.Struct); ok {
+					for f := 0; f < st.NumFields(); f++ {
+						ft := st.Field(f).Type()
+						if pt, ok := ft.Underlying().(*types.Pointer); ok {
+							ft = pt.Elem()
+						}
+						if ft.String() == "map[string]int64" {
+							return i, "." + st.Field(f).Name()
+						}
+					}
 				}
 			}
-			return false
+			return -1, ""
 		}
+		hasTracker := func(fn *ssa.Function) bool { i, _ := trackerOf(fn); return i >= 0 }
 		for hops := 0; hops < 3 && !hasTracker(unit); hops++ {
 			next := unit
 			for _, c := range p.CG().In[unit] {
@@ -428,18 +426,23 @@ func c03(r *core.Run) {
 			}
 			return p.ResolveToEntry(pr, unit)
 		}
+		tIdx, tPath := trackerOf(unit)
 		rp := res(p.ProvAt(bo.Args[1], "", bo.Instr))
 		okr := len(rp.DataAtoms()) > 0
 		for _, a := range rp.DataAtoms() {
-			if !(a.Kind == "param" && a.Fn == unit && strings.HasPrefix(a.Path, "[]")) {
+			if !(a.Kind == "param" && a.Fn == unit && a.Idx == tIdx && strings.HasPrefix(a.Path, tPath+"[]")) {
 				okr = false
 			}
 		}
 		// the parameter is the size tracker: a pointer to map[string]int64
 		r.Check(okr, "C03/R3", "rewards:payout-recipient", p.InstrPos(bo.Instr), "recipient ⊵ keys of the size tracker only", "the payout recipient is not a counted prover: "+rp.String())
 		ap := res(p.ProvAt(bo.Args[2], "", bo.Instr))
-		okTracker := ap.Any(func(a core.Atom) bool { return a.Kind == "param" && a.Fn == unit && strings.HasPrefix(a.Path, "[]") })
-		okTotal := ap.Any(func(a core.Atom) bool { return a.Kind == "param" && a.Fn == unit && a.Path == "" })
+		okTracker := ap.Any(func(a core.Atom) bool {
+			return a.Kind == "param" && a.Fn == unit && a.Idx == tIdx && strings.HasPrefix(a.Path, tPath+"[]")
+		})
+		okTotal := ap.Any(func(a core.Atom) bool {
+			return a.Kind == "param" && a.Fn == unit && !strings.Contains(a.Path, "[]") && (a.Path == "" || (a.Idx == tIdx && tPath != "" && a.Path != tPath))
+		})
 		roundsDown(r, "C03/R9", "rewards:payout-rounds-down", bo.Args[2], p.InstrPos(bo.Instr))
 		r.Check(okTracker && okTotal, "C03/R3", "rewards:payout-amount", p.InstrPos(bo.Instr), "amount ⊵ {tracker entry, total size}", "the payout does not depend on the prover's counted size and the network total")
 		// R4
